@@ -55,8 +55,8 @@ def run(ck):
     comps2 = [c for c in km.compositions(n2) if len(c) <= (2 if quick else 3)]
     recs += model_run(ck, "stats-2d-k3", n2, 2, 3, d2, c2, comps2, coverage=not quick)
     ck.exhaustive = True
-    if quick and len(recs) > 300:
-        recs = rng.sample(recs, 300)
+    if quick and len(recs) > 170:
+        recs = rng.sample(recs, 170)
     for rec in recs:
         replay(ck, em, rec, rng)
     stored_narrow(ck, em, rng, 12 if quick else 150)
@@ -210,7 +210,7 @@ def stored_narrow(ck, em, rng, count):
     for i in range(count):
         seed = rng.randrange(10 ** 6)
         r = np.random.RandomState(seed)
-        K, D, n = int(r.randint(2, 7)), int(r.randint(1, 4)), int(r.randint(6, 40))
+        K, D, n = int(r.randint(1, 7)), int(r.randint(1, 4)), int(r.randint(6, 40))
         dtype = ["float32", "float32", "int16", "uint8"][i % 4]
         off = {"float32": float(r.choice([0.0, 1e4, -3e4])), "int16": float(r.choice([0.0, 9000.0])), "uint8": 120.0}[dtype]
         spread = 2.0 if dtype == "float32" else 25.0
